@@ -11,6 +11,7 @@ import (
 	"time"
 
 	dht "github.com/anacrolix/dht/v2"
+	"github.com/anacrolix/dht/v2/bep44"
 	"github.com/anacrolix/dht/v2/krpc"
 
 	"pgregory.net/rapid"
@@ -27,6 +28,8 @@ type C08Cfg struct {
 	PeerStore bool
 	Dual      bool
 	NodeID    kit.Hex
+	// FaultyStore: the BEP 44 store is a backend that fails (plain or KRPC error) for some targets
+	FaultyStore bool
 }
 
 type C08Msg struct {
@@ -109,6 +112,7 @@ func genC08(t *rapid.T) C08Sc {
 		sc.Cfg.Hook = "allow"
 	}
 	sc.Cfg.NodeID = genBytesN(t, 20, "nodeid")
+	sc.Cfg.FaultyStore = uniformInt(t, 4, "faultystore") == 0
 	nb := rapid.IntRange(1, 4).Draw(t, "nbatches")
 	for b := 0; b < nb; b++ {
 		var batch []C08Msg
@@ -116,6 +120,12 @@ func genC08(t *rapid.T) C08Sc {
 		n := rapid.IntRange(1, 8).Draw(t, "nmsgs")
 		for i := 0; i < n; i++ {
 			m := C08Msg{Src: genSrc(t, sc.Cfg.Dual, "src")}
+			if sc.Cfg.Dual && uniformInt(t, 8, "src.linklocal") == 0 {
+				// a link-local IPv6 peer: the socket reports its scope zone along with the address
+				ip := net.ParseIP("fe80::1").To16()
+				ip[15] = byte(1 + uniformInt(t, 4, "src.llhost"))
+				m.Src.IP, m.Src.Zone = kit.Hex(ip), pick(t, "src.zone", "eth0", "eth0", "2", "")
+			}
 			// sources within a batch are distinct endpoints so that replies can be attributed
 			if used[m.Src.String()] {
 				continue
@@ -243,7 +253,12 @@ func (m C08Msg) build(token string) []byte {
 }
 
 func runC08(sc C08Sc, c *kit.Case) *kit.Violation {
-	sv := newSrv(SrvOpts{NodeID: arr20(sc.Cfg.NodeID), Passive: sc.Cfg.Passive, Hook: sc.Cfg.Hook, PeerStore: sc.Cfg.PeerStore})
+	opts := SrvOpts{NodeID: arr20(sc.Cfg.NodeID), Passive: sc.Cfg.Passive, Hook: sc.Cfg.Hook, PeerStore: sc.Cfg.PeerStore}
+	if sc.Cfg.FaultyStore {
+		opts.Store = faultyStore{bep44.NewMemory()}
+		c.Label("faulty-store")
+	}
+	sv := newSrv(opts)
 	defer sv.Close()
 	silent := sc.Cfg.Passive || sc.Cfg.Hook == "veto"
 	if sc.Cfg.Passive {
@@ -473,6 +488,9 @@ func runC08(sc C08Sc, c *kit.Case) *kit.Violation {
 					want = "any1"
 				default:
 					want = "r"
+				}
+				if sc.Cfg.FaultyStore && (m.Method == "get" || m.Method == "put") && (want == "r" || want == "one") {
+					want = "one" // a failing backend may turn the response into an error; still exactly one, echoing t
 				}
 				if (want == "r" || want == "one") && (m.Method == "announce_peer" || m.Method == "put") {
 					// needs the token to have been obtained
